@@ -89,6 +89,7 @@ def _run(cfg, want_field=True):
     return h, f
 
 
+@scat.guarded
 def run_case(case):
     return globals()["_run_" + case["kind"]](case)
 
